@@ -357,14 +357,12 @@ theorem scalars_decimal (wr : Bool) (t rest : Bytes) (h : IsDecimal t) (hr : NoD
   unfold scalars
   rw [htags.1, htags.2.1, htags.2.2, hrf, hreal]
 
-/-- first bytes on which every numeric / keyword alternative fails -/
-theorem numeric_fail (wr : Bool) (b : UInt8) (r : Bytes) (h1 : b ≠ 110) (h2 : b ≠ 116) (h3 : b ≠ 102)
+/-- first bytes on which every numeric alternative fails -/
+theorem num_fail (wr : Bool) (b : UInt8) (r : Bytes)
     (hd : isDigit b = false) (hp : b ≠ 43) (hm : b ≠ 45) (hdot : b ≠ 46) :
-    tag NULL_KW (b :: r) = none ∧ tag TRUE_KW (b :: r) = none ∧ tag FALSE_KW (b :: r) = none ∧
     (if wr = true then pReference (b :: r) else none) = none ∧ pReal (b :: r) = none ∧
     pInteger (b :: r) = none := by
-  obtain ⟨t1, t2, t3⟩ := tags_fail b r h1 h2 h3
-  refine ⟨t1, t2, t3, ?_, ?_, ?_⟩
+  refine ⟨?_, ?_, ?_⟩
   · cases wr <;> simp [pReference_nondigit b r hd]
   · unfold pReal
     rw [optSign_other b r hp hm]
@@ -378,6 +376,16 @@ theorem numeric_fail (wr : Bool) (b : UInt8) (r : Bytes) (h1 : b ≠ 110) (h2 : 
     · rename_i heq; injection heq with e _; exact absurd e hp
     · rename_i heq; injection heq with e _; exact absurd e hm
     · simp [digit1_nondigit b r hd]
+
+/-- first bytes on which every numeric / keyword alternative fails -/
+theorem numeric_fail (wr : Bool) (b : UInt8) (r : Bytes) (h1 : b ≠ 110) (h2 : b ≠ 116) (h3 : b ≠ 102)
+    (hd : isDigit b = false) (hp : b ≠ 43) (hm : b ≠ 45) (hdot : b ≠ 46) :
+    tag NULL_KW (b :: r) = none ∧ tag TRUE_KW (b :: r) = none ∧ tag FALSE_KW (b :: r) = none ∧
+    (if wr = true then pReference (b :: r) else none) = none ∧ pReal (b :: r) = none ∧
+    pInteger (b :: r) = none := by
+  obtain ⟨t1, t2, t3⟩ := tags_fail b r h1 h2 h3
+  obtain ⟨n1, n2, n3⟩ := num_fail wr b r hd hp hm hdot
+  exact ⟨t1, t2, t3, n1, n2, n3⟩
 
 /-- **name token** -/
 theorem scalars_name (wr : Bool) (n rest : Bytes) (h : NameStop rest) :
